@@ -1,11 +1,12 @@
 (* C37 - Group commit completes every commit exactly once.
    Property theorems only.  The system is Model/GroupCommit.v: GroupCommitQueue
    (src/database/group_commit.rs) together with the caller protocol of execute_small_commit
-   (src/database/transaction.rs), as an interleaving system (Lib/Interleave.v).  [step false] is
-   the code as it is, [step true] the proposed repair (only the elected leader calls
-   take_pending).  Every theorem quantifies over all programs (any number of threads, any number
-   of commits per thread, empty payloads, failing WAL writes) and over all schedules
-   [sched : list nat], i.e. over every interleaving of the atomic steps. *)
+   (src/database/transaction.rs), as an interleaving system (Lib/Interleave.v).  [step true] is
+   the code as it is (since /repo 77fabcc only the elected leader calls take_pending);
+   [step false] is the caller protocol before that commit, kept for the refutation.  Every theorem
+   quantifies over all programs (any number of threads, any number of commits per thread, empty
+   payloads, failing WAL writes) and over all schedules [sched : list nat], i.e. over every
+   interleaving of the atomic steps. *)
 From Coq Require Import ZArith List Bool.
 From TV Require Import Lib.Interleave Model.GroupCommit Corr.C37.
 From TV Require Import Proof.GroupCommitSafe Proof.GroupCommitLive Proof.GroupCommitRepair Proof.GroupCommitCorr.
@@ -17,37 +18,41 @@ Theorem written_at_most_once :
   forall fx progs sched, NoDup (log (sh (run (step fx) sched (init progs)))).
 Proof. exact written_at_most_once_l. Qed.
 
-(* (2) outside the known class (no elected leader lost its own commit to another committer's
-   take_pending): every commit that was told Ok had its payload in the log when it returned
-   (a_loglen = length of the log at the return), and is not a member of a failed batch *)
+(* (2)+(3) every commit that was told Ok had its payload in the log when it returned (a_loglen =
+   length of the log at the return) and is not a member of a failed batch; every member of a batch
+   whose write failed is told so (never Ok) *)
 Theorem written_before_ack :
-  forall fx progs sched,
-    let s := sh (run (step fx) sched (init progs)) in
-    stolen s = false -> forall a, In a (acks s) -> ack_good s a.
-Proof. exact written_before_ack_l. Qed.
+  forall progs sched,
+    let s := sh (run (step true) sched (init progs)) in
+    forall a, In a (acks s) -> ack_good s a /\ (In (a_id a) (att_fail s) -> a_res a <> ROk).
+Proof. exact repair_written_before_ack_l. Qed.
 
-(* (3) ... and every member of a batch whose write failed is told so (never Ok) *)
-Theorem failure_reaches_members :
-  forall fx progs sched,
-    let s := sh (run (step fx) sched (init progs)) in
-    stolen s = false -> forall a, In a (acks s) -> In (a_id a) (att_fail s) -> a_res a <> ROk.
-Proof. exact failure_reaches_members_l. Qed.
+(* the reason: an elected leader never finds its own commit taken by another committer *)
+Theorem leader_keeps_its_commit :
+  forall progs sched, stolen (sh (run (step true) sched (init progs))) = false.
+Proof. exact repair_no_steal_l. Qed.
 
-(* the same, stated on the comparer's own notion of a case and of the known class: for every case
-   (programs + schedule, as the harness runs them under the deterministic scheduler) outside
-   class 1, the model's run of that case acknowledges only written commits *)
-Theorem case_outside_known_class :
-  forall c, known_class c = 0 ->
+(* (1)-(3) on the comparer's own notion of a case (programs + schedule, as the harness runs them
+   under the deterministic scheduler): no hypothesis, no finding class is left *)
+Theorem case_property :
+  forall c,
     let s := sh (fst (final_and_obs c)) in
     NoDup (log s) /\ forall a, In a (acks s) -> ack_good s a /\ (In (a_id a) (att_fail s) -> a_res a <> ROk).
-Proof. exact case_outside_known_class_l. Qed.
+Proof. exact case_property_l. Qed.
 
-(* (2) is false for the code as it is: a commit is acknowledged while its payload is unwritten *)
-Theorem ack_before_write_refuted :
+(* history (finding F-C37-1, fixed by /repo 77fabcc): in the protocol BEFORE that commit, where
+   every committer called take_pending, a commit is acknowledged while its payload is unwritten;
+   in any variant the acknowledgements are fine as long as no leader loses its commit *)
+Theorem ack_before_write_refuted_before_77fabcc :
   exists progs sched,
     let s := sh (run (step false) sched (init progs)) in
     exists a, In a (acks s) /\ a_res a = ROk /\ a_id a <> 0 /\ ~ In (a_id a) (log s).
 Proof. exact ack_before_write_refuted_l. Qed.
+Theorem written_before_ack_any_variant :
+  forall fx progs sched,
+    let s := sh (run (step fx) sched (init progs)) in
+    stolen s = false -> forall a, In a (acks s) -> ack_good s a.
+Proof. exact written_before_ack_l. Qed.
 
 (* (4) no lost wake-up: whenever a committer is blocked in flush_complete.wait there is another
    thread that is not blocked, that holds a drained batch or is about to take a non-empty queue,
@@ -73,46 +78,35 @@ Theorem quiescent_clean :
       (In c (log (sh s)) /\ ~ In c (att_fail (sh s))) \/ In c (att_fail (sh s)).
 Proof. exact quiescent_l. Qed.
 
-(* (6) the repair: if only the elected leader calls take_pending, the known class is empty and
-   (2), (3) hold for every schedule *)
-Theorem repair_no_steal :
-  forall progs sched, stolen (sh (run (step true) sched (init progs))) = false.
-Proof. exact repair_no_steal_l. Qed.
-Theorem repair_written_before_ack :
-  forall progs sched,
-    let s := sh (run (step true) sched (init progs)) in
-    forall a, In a (acks s) -> ack_good s a /\ (In (a_id a) (att_fail s) -> a_res a <> ROk).
-Proof. exact repair_written_before_ack_l. Qed.
-
-(* non-vacuity: a run outside the known class in which commits are acknowledged (two threads, a
-   follower completed by the leader); the known class is inhabited; a reachable state with a
-   blocked waiter; a quiescent state; a failing batch whose two members are both told *)
+(* non-vacuity: a run in which commits are acknowledged (two threads, a follower completed by
+   the leader); the old witness schedule is harmless now; a reachable state with a blocked waiter;
+   a quiescent state; a failing batch whose two members are both told *)
 Example c37_witness :
-  (let s := sh (run (step false) (repeat 0%nat 4 ++ repeat 1%nat 4 ++ repeat 0%nat 10 ++ repeat 1%nat 5) (init [[c_plain]; [c_plain]])) in
-   stolen s = false /\ log s = [1; 2] /\ map a_res (acks s) = [ROk; ROk] /\ map a_id (acks s) = [1; 2])
+  (let s := sh (run (step true) (repeat 0%nat 4 ++ repeat 1%nat 4 ++ repeat 0%nat 10 ++ repeat 1%nat 5) (init [[c_plain]; [c_plain]])) in
+   log s = [1; 2] /\ map a_res (acks s) = [ROk; ROk] /\ map a_id (acks s) = [1; 2])
+  /\ (let s := sh (run (step true) (witness_sched ++ repeat 1%nat 20 ++ repeat 0%nat 20) (init witness_progs)) in
+      log s = [1; 2; 3] /\ map a_id (acks s) = [1; 2; 3] /\ map a_loglen (acks s) = [2; 2; 3])
   /\ stolen (sh (run (step false) witness_sched (init witness_progs))) = true
-  /\ blocked 1%nat (run (step false) (repeat 0%nat 4 ++ repeat 1%nat 4) (init [[c_plain]; [c_plain]])) = true
-  /\ all_finished (run (step false) (repeat 0%nat 4 ++ repeat 1%nat 4 ++ repeat 0%nat 10 ++ repeat 1%nat 5) (init [[c_plain]; [c_plain]])) = true
-  /\ (let s := sh (run (step false) (repeat 0%nat 4 ++ repeat 1%nat 4 ++ repeat 0%nat 40 ++ repeat 1%nat 5) (init [[Commit false (Some 1%nat)]; [c_plain]])) in
-      stolen s = false /\ log s = [1] /\ att_fail s = [1; 2] /\ map a_res (acks s) = [RErrFlush; RErrReported]).
+  /\ blocked 1%nat (run (step true) (repeat 0%nat 4 ++ repeat 1%nat 4) (init [[c_plain]; [c_plain]])) = true
+  /\ all_finished (run (step true) (repeat 0%nat 4 ++ repeat 1%nat 4 ++ repeat 0%nat 10 ++ repeat 1%nat 5) (init [[c_plain]; [c_plain]])) = true
+  /\ (let s := sh (run (step true) (repeat 0%nat 4 ++ repeat 1%nat 4 ++ repeat 0%nat 40 ++ repeat 1%nat 5) (init [[Commit false (Some 1%nat)]; [c_plain]])) in
+      log s = [1] /\ att_fail s = [1; 2] /\ map a_res (acks s) = [RErrFlush; RErrReported]).
 Proof. vm_compute. repeat split. Qed.
 
 Check written_at_most_once : forall fx progs sched, NoDup (log (sh (run (step fx) sched (init progs)))).
-Check written_before_ack : forall fx progs sched, let s := sh (run (step fx) sched (init progs)) in stolen s = false -> forall a, In a (acks s) -> ack_good s a.
-Check failure_reaches_members : forall fx progs sched, let s := sh (run (step fx) sched (init progs)) in stolen s = false -> forall a, In a (acks s) -> In (a_id a) (att_fail s) -> a_res a <> ROk.
-Check case_outside_known_class : forall c, known_class c = 0 -> let s := sh (fst (final_and_obs c)) in NoDup (log s) /\ forall a, In a (acks s) -> ack_good s a /\ (In (a_id a) (att_fail s) -> a_res a <> ROk).
-Check ack_before_write_refuted : exists progs sched, let s := sh (run (step false) sched (init progs)) in exists a, In a (acks s) /\ a_res a = ROk /\ a_id a <> 0 /\ ~ In (a_id a) (log s).
+Check written_before_ack : forall progs sched, let s := sh (run (step true) sched (init progs)) in forall a, In a (acks s) -> ack_good s a /\ (In (a_id a) (att_fail s) -> a_res a <> ROk).
+Check leader_keeps_its_commit : forall progs sched, stolen (sh (run (step true) sched (init progs))) = false.
+Check case_property : forall c, let s := sh (fst (final_and_obs c)) in NoDup (log s) /\ forall a, In a (acks s) -> ack_good s a /\ (In (a_id a) (att_fail s) -> a_res a <> ROk).
+Check ack_before_write_refuted_before_77fabcc : exists progs sched, let s := sh (run (step false) sched (init progs)) in exists a, In a (acks s) /\ a_res a = ROk /\ a_id a <> 0 /\ ~ In (a_id a) (log s).
+Check written_before_ack_any_variant : forall fx progs sched, let s := sh (run (step fx) sched (init progs)) in stolen s = false -> forall a, In a (acks s) -> ack_good s a.
 Check no_lost_wakeup : forall fx progs sched t, let s := run (step fx) sched (init progs) in blocked t s = true -> exists u th, u <> t /\ lget (thrs s) u = Some th /\ flusher fx (sh s) th /\ step fx u s <> None /\ exists m, waiters (sh (run (step fx) (repeat u m) s)) = [].
 Check quiescent_clean : forall fx progs sched, let s := run (step fx) sched (init progs) in all_finished s = true -> fip (sh s) = false /\ waiters (sh s) = [] /\ pending (sh s) = [] /\ forall c lb, In (c, lb) (subs (sh s)) -> (In c (log (sh s)) /\ ~ In c (att_fail (sh s))) \/ In c (att_fail (sh s)).
-Check repair_no_steal : forall progs sched, stolen (sh (run (step true) sched (init progs))) = false.
-Check repair_written_before_ack : forall progs sched, let s := sh (run (step true) sched (init progs)) in forall a, In a (acks s) -> ack_good s a /\ (In (a_id a) (att_fail s) -> a_res a <> ROk).
 
 Print Assumptions written_at_most_once.
 Print Assumptions written_before_ack.
-Print Assumptions failure_reaches_members.
-Print Assumptions case_outside_known_class.
-Print Assumptions ack_before_write_refuted.
+Print Assumptions leader_keeps_its_commit.
+Print Assumptions case_property.
+Print Assumptions ack_before_write_refuted_before_77fabcc.
+Print Assumptions written_before_ack_any_variant.
 Print Assumptions no_lost_wakeup.
 Print Assumptions quiescent_clean.
-Print Assumptions repair_no_steal.
-Print Assumptions repair_written_before_ack.
